@@ -204,10 +204,17 @@ def run_helpers(sh):
       x = Bits(n, xv)
       tgt = m if rng.random() < 0.5 else mk_bits(m)
       r = _try(zext, x, tgt); _chk(sh, "zext", r is not None and _bv(r) == (m, xv), n=n, m=m, x=xv, got=r)
+      _fresh(sh, "zext", x, xv, r, n=n, m=m)
       r = _try(sext, x, tgt)
       _chk(sh, "sext", r is not None and _bv(r) == (m, R.to_signed(n, xv) & R.mask(m)), n=n, m=m, x=xv, got=r)
-      r = _try(trunc, Bits(m, xv), n if isinstance(tgt, int) else mk_bits(n))
+      _fresh(sh, "sext", x, xv, r, n=n, m=m)
+      xm = Bits(m, xv)
+      r = _try(trunc, xm, n if isinstance(tgt, int) else mk_bits(n))
       _chk(sh, "trunc", r is not None and _bv(r) == (n, xv), n=n, m=m, x=xv, got=r)
+      _fresh(sh, "trunc", xm, xv, r, n=n, m=m)
+      lo_ = rng.randrange(n); hi_ = rng.randrange(lo_ + 1, n + 1)
+      _fresh(sh, "getslice", x, xv, _try(lambda: x[lo_:hi_]), n=n, lo=lo_, hi=hi_)
+      _fresh(sh, "concat-of-one", x, xv, _try(concat, x), n=n)
       sh.fp("ext", n == m, xv >> (n - 1), isinstance(tgt, int), n > 64)
     elif k == 2:
       n = rng.choice([1, 2, 3, 8, 31, 32, 33, 64, 65, 255, 1023, rng.randrange(1, 1024)])
@@ -230,6 +237,22 @@ def run_helpers(sh):
     if c < 1:
       sh.sample({"stream": "helpers", "first_kind": k})
   sh.count("evaluations", sh.counters["helper_checks"])
+
+
+def _fresh(sh, what, x, xv, r, **kw):
+  """the result of a helper / a slice read is a value of its own: writing into it in place leaves the operand alone and vice versa"""
+  if r is None: return
+  sh.count("result_aliasing_probes")
+  rv, rn = int(r), r.nbits
+  try:
+    r[0] = 1 - (rv & 1)
+    ok1 = int(x) == xv
+    x @= xv ^ ((1 << x.nbits) - 1)
+    ok2 = int(r) == (rv ^ 1)
+    x @= xv
+  except Exception as e:
+    _chk(sh, what + "-result-in-place-update-raised", False, error=repr(e)[:120], **kw); return
+  _chk(sh, what + "-result-is-independent-of-its-operand", ok1 and ok2 and r is not x, same_object=r is x, operand_changed=not ok1, result_changed=not ok2, **kw)
 
 
 def run_clog2(sh):
